@@ -74,6 +74,8 @@ pub fn configs_c10(tier: Tier) -> Vec<Box<dyn Config>> {
     let p = vec![Probe::Removal { max_subset_len: if q { 8 } else { 11 } }];
     let mut v = pre;
     v.push(set_probe_cfg(if sse2 { Plan::Seq } else { Plan::Zero }, if q { 6 } else { 9 }, tier));
+    // HashTable: retain / extract_if (every cut) / drain are operations of its alphabet, checked against the multiset
+    v.push(super::c06::tab(Plan::Zero, if q { 4 } else { 7 }, if q { 6 } else { 9 }, vec![crate::tablesut::TProbe::Iterators], true, tier, "-removal"));
     if sse2 {
         v.push(map_cfg(Plan::Zero, if q { 11 } else { 14 }, p.clone(), tier, "map-removal"));
         v.push(map_cfg(Plan::Seq, if q { 4 } else { 6 }, p.clone(), tier, "map-removal"));
